@@ -129,9 +129,15 @@ def r2_tables_agree(ctx):
     """The separator sets of load_image, load_image_v2 and load_table are exactly {tab, space, comma, bar, semicolon}; each loader dispatches .npy, .fits and the text suffixes and raises for anything else."""
     for q in (f"{LD}:load_image", f"{LD}:load_image_v2"):
         f = ctx.func(q)
-        lps = [l for l in loops_in(f.node) if isinstance(l, ast.For) and isinstance(l.iter, (ast.Tuple, ast.List)) and all(isinstance(e, ast.Constant) and isinstance(e.value, str) and len(e.value) == 1 for e in l.iter.elts)]
-        ok = len(lps) == 1 and {e.value for e in lps[0].iter.elts} == DELIMS
-        ctx.check(ok, q + "#delimiters", "tries tab, space, comma, bar, semicolon" if ok else f"separator set is {sorted(e.value for l in lps for e in l.iter.elts)!r}", where=f, node=lps[0].iter if lps else f.node)
+        def _seps(l):
+            it = expand(f, l.iter)
+            if isinstance(it, (ast.Tuple, ast.List)) and it.elts and all(isinstance(e, ast.Constant) and isinstance(e.value, str) and len(e.value) == 1 for e in it.elts):
+                return {e.value for e in it.elts}
+            return None
+
+        lps = [l for l in loops_in(f.node) if isinstance(l, ast.For) and _seps(l) is not None]
+        ok = len(lps) == 1 and _seps(lps[0]) == DELIMS
+        ctx.check(ok, q + "#delimiters", "tries tab, space, comma, bar, semicolon" if ok else f"separator set is {sorted(x for l in lps for x in _seps(l))!r}", where=f, node=lps[0].iter if lps else f.node)
         if lps:
             lp = lps[0]
             lt = [c for c in calls_in(lp) if call_name(c) in ("np.loadtxt", "numpy.loadtxt")]
@@ -172,34 +178,53 @@ def r3_alignment_exhaustive(ctx):
     en = ctx.cls(f"{IMG}:Alignment")
     members = [k for k in en.consts]
     f = ctx.func(f"{IMG}:_set_relative_position")
-    arms = {}
-    cur = next((s for s in f.node.body if isinstance(s, ast.If)), None)
-    tail = None
-    while cur is not None:
-        t = cur.test
-        if isinstance(t, ast.Compare) and isinstance(t.ops[0], ast.Eq) and (dotted(t.comparators[0]) or "").startswith("Alignment."):
-            rets = [s for s in cur.body if isinstance(s, ast.Return)]
-            arms[dotted(t.comparators[0]).split(".")[1]] = rets[0].value if rets else None
-        if len(cur.orelse) == 1 and isinstance(cur.orelse[0], ast.If):
-            cur = cur.orelse[0]
-        else:
-            tail = cur.orelse
-            cur = None
-    ok = set(arms) == set(members) and len(members) == 5
-    ctx.check(ok, f.qual + "#arms", f"one arm per alignment keyword {sorted(members)}" if ok else f"arms {sorted(arms)} vs keywords {sorted(members)}", where=f, node=f.node)
-    ok = tail is not None and ends_in_raise(tail)
-    ctx.check(ok, f.qual + "#else", "unknown keyword raises" if ok else "unknown alignment does not raise", where=f, node=f.node)
+    # Decided over the finite domain of keywords: for every member of Alignment (and one value that
+    # is not a member) the path conditions of _set_relative_position are evaluated (sa/minieval.py)
+    # and the unique feasible path's result is compared, as a polynomial, with the documented offset.
+    from sa.minieval import Interp, Opaque, Undecided
+    from sa.paths import enumerate_paths
+
+    ap = f.params[-1] if f.params[-1] == "alignment" else next((p_ for p_ in f.params if "align" in p_), f.params[-1])
+    paths = enumerate_paths(f.node.body)
     dy = to_poly(ast.parse("output_y - array_y", mode="eval").body)
     dx = to_poly(ast.parse("output_x - array_x", mode="eval").body)
     half = Poly.const(1) * Poly({(): __import__("fractions").Fraction(1, 2)})
     want = {"center": (dy * half, dx * half), "top_left": (dy, Poly()), "top_right": (dy, dx), "bottom_left": (Poly(), Poly()), "bottom_right": (Poly(), dx)}
-    for name, v in arms.items():
-        if name not in want or not isinstance(v, ast.Tuple) or len(v.elts) != 2:
-            ctx.fail(f.qual + f"#{name}", f"arm returns {norm(v)}", where=f, node=v or f.node)
+    ok = set(members) == set(want)
+    ctx.check(ok, f.qual + "#arms", f"alignment keywords {sorted(members)}" if ok else f"Alignment members {sorted(members)} differ from the documented keywords {sorted(want)}", where=en, node=en.node)
+
+    def feasible(member_text):
+        out = []
+        for q in paths:
+            good = True
+            for t, pol in q.conds:
+                if ap not in names_in(t):
+                    continue
+                try:
+                    v = bool(Interp().expr(t, {ap: Opaque(member_text)}))
+                except Undecided as exc:
+                    raise AnalysisError(f"_set_relative_position: condition `{norm(t)}` cannot be evaluated for {member_text} ({exc})")
+                if v != pol:
+                    good = False
+                    break
+            if good:
+                out.append(q)
+        return out
+
+    for name in sorted(set(members) | set(want)):
+        if name not in members:
             continue
+        fs = feasible(f"Alignment.{name}")
+        if len(fs) != 1 or fs[0].exit != "return" or not isinstance(fs[0].value, ast.Tuple) or len(fs[0].value.elts) != 2:
+            ctx.fail(f.qual + f"#{name}", f"keyword {name}: " + ("raises" if fs and fs[0].exit == "raise" else f"{len(fs)} feasible paths / result {norm(fs[0].value) if fs and fs[0].value is not None else None}"), where=f, node=(fs[0].exit_node if fs else None) or f.node)
+            continue
+        v = fs[0].value
         got = tuple(to_poly(e, transparent={"int", "round", "math.floor"}) for e in v.elts)
-        ok = got[0] == want[name][0] and got[1] == want[name][1]
-        ctx.check(ok, f.qual + f"#{name}", f"{name}: offset ({norm(v.elts[0])}, {norm(v.elts[1])})" if ok else f"{name}: offset ({norm(v.elts[0])}, {norm(v.elts[1])}) is not the documented placement", where=f, node=v)
+        ok = name in want and got[0] == want[name][0] and got[1] == want[name][1]
+        ctx.check(ok, f.qual + f"#{name}", f"{name}: offset ({norm(v.elts[0])}, {norm(v.elts[1])})" if ok else f"{name}: offset ({norm(v.elts[0])}, {norm(v.elts[1])}) is not the documented placement", where=f, node=fs[0].exit_node or f.node)
+    fs = feasible("Alignment.__not_a_member__")
+    ok = bool(fs) and all(q.exit == "raise" for q in fs)
+    ctx.check(ok, f.qual + "#else", "unknown keyword raises" if ok else "unknown alignment does not raise", where=f, node=f.node)
 
 
 def r4_pure_shift(ctx):
@@ -212,17 +237,14 @@ def r4_pure_shift(ctx):
     un = {norm(s_.targets[0]): norm(s_.value) for s_ in walk_ordered(f.node) if isinstance(s_, ast.Assign) and isinstance(s_.targets[0], ast.Tuple)}
     ok = un.get("(array_y, array_x)") == "array.shape" and un.get("(output_y, output_x)") == "output_shape"
     ctx.check(ok, f.qual + "#axes", "(y, x) = shape for input and output" if ok else f"shape unpacking {un}", where=f, node=f.node)
-    # slicing statements
-    crop = [s_ for s_, v in [(s, getattr(s, "value", None)) for s in walk_ordered(f.node) if isinstance(s, (ast.Assign, ast.AnnAssign))] if isinstance(v, ast.Subscript) and dotted(v.value) == "array"]
-    dst = [s_ for s_ in walk_ordered(f.node) if isinstance(s_, ast.Assign) and isinstance(s_.targets[0], ast.Subscript) and dotted(s_.targets[0].value) == "output"]
-    if len(crop) != 1 or len(dst) != 1:
-        ctx.fail(f.qual + "#slices", "crop / paste statements not recognised", where=f, node=f.node)
-        return
-    src_sl = crop[0].value.slice
-    dst_sl = dst[0].targets[0].slice
-    if not (isinstance(src_sl, ast.Tuple) and isinstance(dst_sl, ast.Tuple) and len(src_sl.elts) == len(dst_sl.elts) == 2):
-        ctx.fail(f.qual + "#slices", "2-D slices not recognised", where=f, node=crop[0])
-        return
+    # Everything below is decided per PATH through fit_into_array (sa/paths.py): locals, named
+    # intermediates, helper functions (inlined) and the shape of the guards do not matter.
+    from sa.paths import enumerate_paths
+
+    def canon(txt: str) -> str:
+        for a_, b_ in (("array.shape[0]", "array_y"), ("array.shape[1]", "array_x"), ("output_shape[0]", "output_y"), ("output_shape[1]", "output_x"), ("(array.shape)[0]", "array_y"), ("(array.shape)[1]", "array_x"), ("(output_shape)[0]", "output_y"), ("(output_shape)[1]", "output_x")):
+            txt = txt.replace(a_, b_)
+        return txt
 
     def bounds(e):
         if isinstance(e, ast.Call) and call_name(e) == "slice" and len(e.args) == 2:
@@ -231,114 +253,58 @@ def r4_pure_shift(ctx):
             return [e.lower, e.upper]
         return None
 
-    def canon(txt: str) -> str:
-        for a_, b_ in (("array.shape[0]", "array_y"), ("array.shape[1]", "array_x"), ("output_shape[0]", "output_y"), ("output_shape[1]", "output_x")):
-            txt = txt.replace(a_, b_)
-        return txt
+    def cp(e):
+        return to_poly(ast.parse(canon(norm(e)), mode="eval").body)
 
-    guards = raising_ifs(f.node)
-    g_nodes_ok = []
-    for i, ax in ((0, "y"), (1, "x")):
-        sb, db = bounds(src_sl.elts[i]), bounds(dst_sl.elts[i])
-        if sb is None or db is None:
-            ctx.fail(f.qual + f"#shift:{ax}", "slice bounds not recognised", where=f, node=crop[0])
+    paths = enumerate_paths(f.node.body)
+    done = [q for q in paths if q.exit == "return"]
+    if not done:
+        ctx.fail(f.qual + "#slices", "no path returns a result", where=f, node=f.node)
+        return
+    n_paste = 0
+    for q in done:
+        tag = "aligned" if any("align" in t and pol for t, pol in q.cond_texts()) else "positioned"
+        okr = q.value is not None and dotted(q.value) == "output" or (q.value is not None and norm(q.value) in ("np.zeros(output_shape)", "np.zeros(shape=output_shape)"))
+        pastes = [e for e in q.effects if e.kind == "store" and e.target.startswith(("output[", "np.zeros(output_shape)["))]
+        if len(pastes) != 1 or not okr:
+            ctx.fail(f.qual + f"#paste:{tag}", f"{len(pastes)} paste operations on a returning path / returns {norm(q.value) if q.value is not None else None}", where=f, node=q.exit_node or f.node)
             continue
-        rp = Poly.sym(f"relative_position[{i}]")
-        sbx = [expand(f, x, depth=1) if isinstance(x, ast.Name) else x for x in sb]
-        dbx = list(db)
-        # express positions through relative_position (tuple-unpacked aliases are expanded)
-        def P(e):
-            class T(ast.NodeTransformer):
-                def visit_Name(self, n):
-                    d_ = local_defs(f, n.id)
-                    if len(d_) == 1 and isinstance(d_[0][1], ast.Subscript) and dotted(d_[0][1].value) == "relative_position":
-                        return d_[0][1]
-                    return n
-            from sa.astutil import clone
+        n_paste += 1
+        pst = pastes[0]
+        tgt = ast.parse(pst.target, mode="eval").body
+        val = pst.value
+        okp = isinstance(val, ast.Subscript) and dotted(val.value) == "array" and isinstance(val.slice, ast.Tuple) and len(val.slice.elts) == 2 and isinstance(tgt, ast.Subscript) and isinstance(tgt.slice, ast.Tuple) and len(tgt.slice.elts) == 2
+        ctx.check(okp, f.qual + f"#paste:{tag}", "a 2-D block of the input is pasted into the output, which is returned" if okp else f"what is pasted is {norm(val)[:80]}: not a 2-D block of the input array", where=f, node=pst.node)
+        if not okp:
+            continue
+        from sa.paths import subst as _subst
 
-            return to_poly(T().visit(clone(e)))
-
-        lo_ok = (P(db[0]) - P(sb[0])) == rp
-        hi_ok = (P(db[1]) - P(sb[1])) == rp
-        ctx.check(lo_ok and hi_ok, f.qual + f"#shift:{ax}", f"source slice = destination slice - relative_position[{i}]" if lo_ok and hi_ok else f"axis {ax}: source [{norm(sb[0])} : {norm(sb[1])}] is not destination [{norm(db[0])} : {norm(db[1])}] shifted by relative_position[{i}]", where=f, node=crop[0])
-        # destination = exactly the overlap of range(rp, rp + array) with range(output); empty overlap raises
-        lo_t = canon(norm(expand(f, db[0], depth=3)))
-        hi_t = canon(norm(expand(f, db[1], depth=3)))
-        r = f"relative_position[{i}]"
-        inter = f"np.intersect1d(np.array(range({r}, {r} + array_{ax})), np.array(range(output_{ax})))"
-        form_a = lo_t == f"{inter}[0]" and hi_t in (f"{inter}[-1] + 1", f"1 + {inter}[-1]")
-        form_b = lo_t in (f"max({r}, 0)", f"max(0, {r})") and hi_t in (f"min({r} + array_{ax}, output_{ax})", f"min(output_{ax}, {r} + array_{ax})", f"min(array_{ax} + {r}, output_{ax})")
-        ctx.check(form_a or form_b, f.qual + f"#dest:{ax}", "destination covers exactly the overlap of the shifted input with the detector" if form_a or form_b else f"axis {ax}: destination [{lo_t[:60]} : {hi_t[:60]}] is not the overlap of range(rp, rp + array_{ax}) with range(output_{ax})", where=f, node=dst[0])
-        # emptiness guard: whenever this axis' overlap is empty some guard must raise, whatever else holds
-        import itertools as _it
-
-        def _atoms_eval(t, env):
-            """3-valued evaluation of a guard test; env maps canonical atom text -> bool."""
-            if isinstance(t, ast.BoolOp):
-                vals = [_atoms_eval(v, env) for v in t.values]
-                if isinstance(t.op, ast.And):
-                    return False if False in vals else (None if None in vals else True)
-                return True if True in vals else (None if None in vals else False)
-            if isinstance(t, ast.UnaryOp) and isinstance(t.op, ast.Not):
-                v = _atoms_eval(t.operand, env)
-                return None if v is None else (not v)
-            for dpt in (0, 1, 2, 3):
-                txt = canon(norm(expand(f, t, depth=dpt))).replace("(", "").replace(")", "")
-                for k, v in env.items():
-                    if txt == k:
-                        return v
-            if isinstance(t, ast.Compare) and len(t.ops) == 2:
-                # a == b == 0
-                parts = [ast.Compare(left=t.left, ops=[t.ops[0]], comparators=[t.comparators[0]]), ast.Compare(left=t.comparators[0], ops=[t.ops[1]], comparators=[t.comparators[1]])]
-                vals = []
-                for x in (t.left, t.comparators[0]):
-                    got_ = None
-                    for dpt in (0, 1, 2, 3):
-                        key = canon(norm(expand(f, x, depth=dpt))).replace("(", "").replace(")", "") + " == 0"
-                        if key in env:
-                            got_ = env[key]
-                    vals.append(got_)
-                if isinstance(t.comparators[1], ast.Constant) and t.comparators[1].value == 0 and None not in vals:
-                    return all(vals)
-            return None
-
-        atoms = {}
-        if form_a:
-            for a2, i2 in (("y", 0), ("x", 1)):
-                r2 = f"relative_position[{i2}]"
-                it2 = f"np.intersect1d(np.array(range({r2}, {r2} + array_{a2})), np.array(range(output_{a2})))".replace("(", "").replace(")", "")
-                atoms[a2] = [f"{it2}.size == 0"]
-        elif form_b:
-            for a2, sl_ in (("y", dst_sl.elts[0]), ("x", dst_sl.elts[1])):
-                b2 = bounds(sl_)
-                lo_n, hi_n = norm(b2[0]), norm(b2[1])
-                atoms[a2] = [f"{hi_n} <= {lo_n}", f"{lo_n} >= {hi_n}", f"{hi_n} - {lo_n} <= 0"]
-        ok_g = bool(atoms)
-        other = "x" if ax == "y" else "y"
-        for other_empty in (True, False):
-            raised = False
-            for gd in guards:
-                if not any(k in canon(norm(expand(f, gd.test, depth=3))) for k in ("intersect1d", "<=", ">=")) and not form_a:
-                    pass
-                for combo_this in atoms.get(ax, []):
-                    env = {combo_this: True}
-                    for k in atoms.get(ax, []):
-                        env.setdefault(k, True)
-                    for k in atoms.get(other, []):
-                        env[k] = other_empty
-                    v = _atoms_eval(gd.test, env)
-                    if v is True:
-                        raised = True
-            ok_g = ok_g and raised
-        if ok_g:
-            gn = [n for gd in guards for n in g.nodes_of(gd)]
-            first_gd = [n for n in gn]
-            ok_g = all(any(g.must_precede([x], n) for x in first_gd) for s_ in crop + dst for n in g.nodes_of(s_))
-        ctx.check(ok_g, f.qual + f"#no-overlap:{ax}", f"an empty overlap in {ax} raises before any slicing" if ok_g else f"an input that does not overlap the detector in {ax} (including edge-to-edge placement) is not rejected: an all-zero image would be returned", where=f, node=dst[0])
-    ok = dotted(dst[0].value) == (dotted(crop[0].targets[0]) if isinstance(crop[0], ast.Assign) else dotted(crop[0].target))
-    rets = [r for r in returns_of(f) if r.value is not None]
-    ok = ok and len(rets) == 1 and dotted(rets[0].value) == "output"
-    ctx.check(ok, f.qual + "#paste", "the cropped input is pasted and the output returned" if ok else "the cropped input is not what is pasted / returned", where=f, node=dst[0])
+        for i, ax in ((0, "y"), (1, "x")):
+            sb, db = bounds(val.slice.elts[i]), bounds(tgt.slice.elts[i])
+            if sb is None or db is None:
+                ctx.fail(f.qual + f"#shift:{ax}:{tag}", "slice bounds not recognised", where=f, node=pst.node)
+                continue
+            rp_e = _subst(ast.parse(f"relative_position[{i}]", mode="eval").body, q.env)
+            r = canon(norm(rp_e))
+            lo_ok = (cp(db[0]) - cp(sb[0])) == cp(rp_e)
+            hi_ok = (cp(db[1]) - cp(sb[1])) == cp(rp_e)
+            ctx.check(lo_ok and hi_ok, f.qual + f"#shift:{ax}:{tag}", f"source block = destination block - position[{i}]" if lo_ok and hi_ok else f"axis {ax}: source [{canon(norm(sb[0]))[:70]} : {canon(norm(sb[1]))[:70]}] is not destination [{canon(norm(db[0]))[:70]} : {canon(norm(db[1]))[:70]}] shifted by the requested position component {i} ({r[:50]})", where=f, node=pst.node)
+            lo_t, hi_t = canon(norm(db[0])), canon(norm(db[1]))
+            inter = f"np.intersect1d(np.array(range({r}, {r} + array_{ax})), np.array(range(output_{ax})))"
+            inter2 = f"np.intersect1d(np.array(range(output_{ax})), np.array(range({r}, {r} + array_{ax})))"
+            form_a = any(lo_t == f"{it_}[0]" and hi_t in (f"{it_}[-1] + 1", f"1 + {it_}[-1]") for it_ in (inter, inter2))
+            form_b = lo_t in (f"max({r}, 0)", f"max(0, {r})") and hi_t in (f"min({r} + array_{ax}, output_{ax})", f"min(output_{ax}, {r} + array_{ax})", f"min(array_{ax} + {r}, output_{ax})")
+            ctx.check(form_a or form_b, f.qual + f"#dest:{ax}:{tag}", "destination covers exactly the overlap of the shifted input with the detector" if form_a or form_b else f"axis {ax}: destination [{lo_t[:70]} : {hi_t[:70]}] is not the overlap of range(p, p + array_{ax}) with range(output_{ax})", where=f, node=pst.node)
+            # on this (returning) path the overlap of this axis is known to be non-empty
+            facts = {(canon(t), pol) for t, pol in q.cond_texts()}
+            nonempty = set()
+            for it_ in (inter, inter2):
+                for sz in (f"{it_}.size", f"len({it_})"):
+                    nonempty |= {(f"{sz} == 0", False), (f"{sz} > 0", True), (f"{sz} >= 1", True), (f"{sz} < 1", False), (f"{sz} <= 0", False), (sz, True), (f"0 == {sz}", False), (f"0 < {sz}", True)}
+            nonempty |= {(f"{hi_t} <= {lo_t}", False), (f"{lo_t} >= {hi_t}", False), (f"{hi_t} - {lo_t} <= 0", False), (f"{hi_t} > {lo_t}", True), (f"{lo_t} < {hi_t}", True), (f"{hi_t} - {lo_t} > 0", True)}
+            okg = bool(facts & nonempty)
+            ctx.check(okg, f.qual + f"#no-overlap:{ax}:{tag}", f"an empty overlap in {ax} raises before any slicing" if okg else f"an input that does not overlap the detector in {ax} (including edge-to-edge placement) is not rejected: an all-zero image would be returned", where=f, node=pst.node, facts={"known_on_path": sorted(t for t, pol in facts)[:8]})
+    ctx.floor(n_paste, 2, rule="C20.R4")
     # callers: (position_y, position_x) order
     lc = ctx.func(f"{IMG}:_load_cropped_and_aligned_image") if ctx.repo.has_func(f"{IMG}:_load_cropped_and_aligned_image") else ctx.func(f"{IMG}:load_cropped_and_aligned_image")
     fc = [c for c in calls_in(lc.node) if call_name(c) == "fit_into_array"]
